@@ -44,7 +44,7 @@ prop("C03", [RO.rule_OR3, CF.rule_CF_switches, SQ.rule_SQ7, SQ.rule_SQ8, LK.rule
      "multi-statement writes are one committed sqlite transaction (SQ3); cascades on (SQ1); one critical section and one DB delete per balance update (AT2); "
      "memory purge always followed by the DB purge (OR2g); the generic statement executor answers Ok only when sqlite did and keeps primary-key and foreign-key refusals apart, and a tracker's status round-trips through its two columns (DX); block processing is re-runnable in the sense that, on a replayed block, only undecryptable or node-rejected breaches are dropped (OR2w: any other verdict, e.g. already-in-chain, keeps the appointment and its tracker). NOT decided: enumeration of crash points, replay equivalence, partial-progress semantics of the SPV client.",
      technique="must-precede / must-follow path analysis on MIR + SQL statement tables")
-prop("C04", [RO.rule_OR2_responder, RO.rule_CR, RO.rule_EF2, RO.rule_EF3, SQ.rule_SQ4, RO.rule_TX, RT.rule_SL, TH.rule_TH, LK.rule_AT4, DX.rule_DX],
+prop("C04", [RO.rule_OR2_responder, RO.rule_CR, RO.rule_EF2, RO.rule_EF3, SQ.rule_SQ4, RO.rule_TX, RT.rule_SL, TH.rule_TH, LK.rule_AT4, DX.rule_DX, LK.rule_AT6],
      STATIC + "Decided: Responder connect/disconnect pipelines complete on all paths; reorg handler gated by coming_from_reorg and re-announces dispute then penalty of the stored tracker; "
      "rejected re-submissions queued for the no-refund delete; completion guard `current_height - h == IRREVOCABLY_RESOLVED` on ConfirmedIn(h); rebroadcast threshold "
      "InMempoolSince(height - 6) (OR2r); refund flag constant and true exactly for check_confirmations' list (EF2); constants 100/6 (EF3); the refund persisted with the deletion is the balance after every addition (SL); the confirmation height taken from the index is the block's chain height in every reachable index state (TH). "
@@ -66,7 +66,7 @@ prop("C07", [RT.rule_SL, LK.rule_AT2, RO.rule_EF2, RO.rule_EF3, SQ.rule_SQ3, SQ.
      "refund adds slots(stored blob) and is persisted in the deletion's transaction; one critical section per balance update; only completion refunds; one divisor (2048) at all charge/refund sites; "
      "the balance reported is the one computed and persisted; a charge is always followed by the store (no refusal after the balance moved) (CBS); the reads the charge and the refund are computed from range over every stored appointment of the uuid, triggered or not (SQ4 query-scope table); a refused registration writes nothing to the live record, so no slots are minted by a request that was turned down (SB all-or-nothing). NOT decided: the conservation law over histories, the float slot formula per blob length.",
      technique="comparison/arithmetic shape rules over origin terms + lock spans")
-prop("C08", [RT.rule_RC, WT.rule_WT3, SQ.rule_SQ2, LK.rule_AT2, ED.rule_ED, DX.rule_DX, RO.rule_OR2_watcher, LK.rule_AT1, SQ.rule_SQ6, SQ.rule_SQ7, SQ.rule_SQ8],
+prop("C08", [RT.rule_RC, WT.rule_WT3, SQ.rule_SQ2, LK.rule_AT2, ED.rule_ED, DX.rule_DX, RO.rule_OR2_watcher, LK.rule_AT1, SQ.rule_SQ6, SQ.rule_SQ7, SQ.rule_SQ8, RT.rule_SB],
      STATIC + "Decided: an appointment receipt is returned only on paths that stored the appointment / handed it to the responder, is built from the same ExtendedAppointment (request signature, "
      "height at acceptance) and is signed with the tower key; registration receipts are built from the persisted record; gRPC responses map like-named fields (RC); signed layouts cover every field "
      "once with at most one variable-length component, integers whole through to_be_bytes of their own width (WT3); updates rewrite all mutable columns, inserts/updates bind parameters in column order (SQ2); every read-modify-write of a user record is one critical section, so the record a registration receipt was built from is not overwritten by a concurrent stale copy (AT2); a late-triggered appointment is given up only when the Responder answered Rejected, so a receipt never stands for an appointment dropped without cause (OR2w); the cache look-up that finds the dispute confirmed and the store / hand-over that acts on it are one critical section of the locator cache, so a reorg or a re-submission cannot slip between 'confirmed' and 'dropped because the node refused' (AT1). NOT decided: signature validity, byte-for-byte read-back.",
@@ -75,7 +75,7 @@ prop("C09", [RT.rule_SB, RO.rule_OR2_gatekeeper, RO.rule_OR1, SQ.rule_SQ1, RT.ru
      STATIC + "Decided: expired = (height >= subscription_expiry) reporting that expiry; outdated = (block_height >= subscription_expiry + expiry_delta); renewal = checked_add(expiry, duration).unwrap_or(MAX) "
      "on the existing-user arm; new user = (slots, height, height + duration); disconnect stores height - 1; purge pipeline + cascade + listener order; every request handler decides on the flag returned by has_subscription_expired itself (the Gatekeeper's verdict at its own height), not on a comparison re-derived from another height (AU1); the duration and grace period the Gatekeeper is built with are the configured ones — Config::verify rewrites nothing but the network name and an unset port, and main hands the configured fields to Gatekeeper::new (CF). NOT decided: behaviour across reorg histories and boundary configurations.",
      technique="comparison-shape rules over closure-resolved origin terms")
-prop("C10", [LK.rule_lock_classes, LK.rule_AT1, LK.rule_AT2, LK.rule_AT3, LK.rule_AT4, LK.rule_AT5, LK.rule_LK0, LK.rule_LK1],
+prop("C10", [LK.rule_lock_classes, LK.rule_AT1, LK.rule_AT2, LK.rule_AT3, LK.rule_AT4, LK.rule_AT5, LK.rule_LK0, LK.rule_LK1, LK.rule_AT6],
      STATIC + "Decided, for all paths and all pairs of threads: AT1 (cache look-up and store are one critical section of the locator-cache lock, block thread updates the cache before querying the DB), "
      "AT2 (each balance read-modify-write is one critical section), AT3 (charge and store atomic against an identical concurrent submission), AT4 (a disconnection purges the Responder's index before collecting the trackers confirmed in that block, so a concurrent trigger is either collected or misses the block), AT5 (the purge of outdated users — selection, removal from memory, deletion of the rows — is one critical section of the users lock, so a registration is handled entirely before or entirely after it), LK0/LK1 (no two operations can wait on each other). "
      "NOT decided: equivalence of final states to some sequential order (needs execution).",
